@@ -192,6 +192,25 @@ def run(ctx):
         other = [t.callee.short.split("::")[-1] for t in b.calls() if t.callee and t.callee.short.split("::")[-1] in ("get_successors_map", "get_predecessors_map", "get_successor_nodes", "get_predecessor_nodes", "get_all_edges", "get_edges_for_node", "get_out_edges_for_node", "get_in_edges_for_node")]
         ctx.require(calls and not other, "R-C03-2", "kernel|" + b.short, "%s reads adjacency only through the by-index accessors (%d call sites)" % (sfx.split("::")[-1], len(calls)), "%s: by-index accessor calls=%d, other adjacency sources=%s" % (sfx, len(calls), other), loc_str(b.span))
     ctx.floor("R-C03-2", "by_index_accessor_calls_in_kernels", n_calls, 8)
+    # who may call the raw accessors: the list may repeat a neighbour (undirected self-loop) and carries one
+    # (minimum / policy) weight per pair, not per-edge weights -- every consumer was reviewed for that
+    REVIEWED = {
+        ("dijkstra::dijkstra", "succ"), ("dijkstra::dijkstra_basic", "succ"), ("betweenness::bfs", "succ"), ("betweenness::dijkstra", "succ"),
+        ("closeness::single_source_shortest_path_length_unweighted", "succ"), ("closeness::single_source_shortest_path_length_weighted", "succ"),
+        ("weak_connectivity::bfs_equal_size_partitions", "succ"), ("query::Graph::get_neighbor_nodes", "succ"), ("query::Graph::get_neighbor_nodes", "pred"),
+    }
+    for p2 in sorted(prog.bodies):
+        b2 = prog.bodies[p2]
+        root = b2
+        while root.kind == "closure":
+            root = prog.bodies[root.item["parent"]]
+        for t in b2.calls():
+            tp = t.callee.target_path(prog) if t.callee else None
+            if tp not in acc:
+                continue
+            which = "succ" if "successor" in tp else "pred"
+            ok = any(root.short.endswith(r) and w == which for (r, w) in REVIEWED)
+            ctx.require(ok, "R-C03-2", "caller|%s|%s" % (root.short, which), "%s is a reviewed consumer of the raw %s list" % (root.short.split("::")[-1], which), "%s reads the raw %s adjacency list: it may list a neighbour twice (undirected self-loop) and holds one policy weight per pair, not the stored edges' weights; this consumer was not reviewed for that" % (root.short, "successor" if which == "succ" else "predecessor"), loc_str(t.span))
     # the accessors return the stored list itself
     for a in acc:
         b = prog.bodies[a]
